@@ -84,6 +84,13 @@ Theorem c07_discard :
   process_frame now s c (FArray [FBulk (bs "DISCARD")]) oracle = (r_ok, set_conn s c (clear_tx cn)).
 Proof. exact discard_spec. Qed.
 
+(** ... and so does a disconnect: the connection's record - queue and watched keys with it - is
+    gone, no database, tracker or log entry changes *)
+Theorem c07_disconnect_drops_queue :
+  forall s c, s_dbs (del_conn s c) = s_dbs s /\ s_trk (del_conn s c) = s_trk s /\ s_aof (del_conn s c) = s_aof s /\
+              s_conns (del_conn s c) = zremove c (s_conns s).
+Proof. intros s c. repeat split; reflexivity. Qed.
+
 (** transaction state is per connection *)
 Theorem c07_per_connection :
   forall now s c dbi parts oracle r s',
